@@ -21,9 +21,10 @@ structure TSkip (hi s k : Nat) (p : Nat × Nat) (P : Pool) : Prop where
     (p = (0, 0) ∧ P.fin.status 0 = some (.notarized 0) ∧ P.fin.parents (0, 0) = none ∧ (get P.pr 0).nfs = [0])
   between : ∀ t, p.1 < t → t < s → (get P.pr t).skip = true
   run : SkipRun s k p P.pr
+  highEq : P.fin.highest = p.1
 
 theorem TReady.toSkip {hi s : Nat} {p : Nat × Nat} {P : Pool} (t : TReady hi s p P) : TSkip hi s s p P := by
-  refine ⟨t.first_le, t.high_le, t.bound, t.statusNone, t.parentsNone, t.parentOk, t.between, ?_⟩
+  refine ⟨t.first_le, t.high_le, t.bound, t.statusNone, t.parentsNone, t.parentOk, t.between, ?_, t.highEq⟩
   refine ⟨t.plt, t.root_le, fun y h1 h2 => by omega, ?_, ?_, t.atS.2.2, fun y hy => (t.above y hy).2.2, t.prParent⟩
   · intro y hy
     by_cases h : y = s
@@ -38,8 +39,8 @@ theorem TSkip.of_trk {hi s k : Nat} {p : Nat × Nat} {Q Q' : Pool} (t : TSkip hi
     TSkip hi s k p Q' := by
   have e1 : Q'.fin = Q.fin := congrArg Trk.fin e
   have e2 : Q'.pr = Q.pr := congrArg Trk.pr e
-  obtain ⟨a1, a2, a3, a4, a5, a6, a7, a8⟩ := t
-  refine ⟨?_, ?_, ?_, ?_, ?_, ?_, ?_, ?_⟩ <;> (first | rw [e1, e2] | rw [e1] | rw [e2]) <;> assumption
+  obtain ⟨a1, a2, a3, a4, a5, a6, a7, a8, a9⟩ := t
+  refine ⟨?_, ?_, ?_, ?_, ?_, ?_, ?_, ?_, ?_⟩ <;> (first | rw [e1, e2] | rw [e1] | rw [e2]) <;> assumption
 
 theorem windowEnd_isStart (s : Nat) : isWindowStart (ParentReady.windowFirst s + ParentReady.W) = true := by
   simp only [isWindowStart, ParentReady.windowFirst, ParentReady.W, Gen.SLOTS_PER_WINDOW, beq_iff_eq]
@@ -64,7 +65,7 @@ theorem cert_skip {hi s k : Nat} {p : Nat × Nat} {a : SlotState} {Q : Pool} (hg
   · intro hlt
     have hne : c.slot + 1 ≠ ParentReady.windowFirst s + ParentReady.W := by omega
     refine ⟨⟨by rw [v3]; exact ts.first_le, by rw [v3]; exact ts.high_le, by rw [v3]; exact ts.bound,
-      by rw [v3]; exact ts.statusNone, by rw [v3]; exact ts.parentsNone, ?_, ?_, ?_⟩, ?_⟩
+      by rw [v3]; exact ts.statusNone, by rw [v3]; exact ts.parentsNone, ?_, ?_, ?_, by rw [v3]; exact ts.highEq⟩, ?_⟩
     · rw [v3, v4]
       rcases ts.parentOk with h1 | ⟨h1, h2, h3, h4⟩
       · exact Or.inl h1
@@ -99,7 +100,8 @@ theorem cert_skip {hi s k : Nat} {p : Nat × Nat} {a : SlotState} {Q : Pool} (hg
   · intro hE
     have hws : isWindowStart (c.slot + 1) = true := by rw [hE]; exact windowEnd_isStart s
     refine ⟨⟨by have := r.plt; omega, by rw [v3]; exact ts.first_le, by rw [v3]; exact ts.high_le, by rw [v3]; exact ts.bound,
-      by rw [v3]; exact ts.statusNone, by rw [v3]; exact ts.parentsNone, ?_, by rw [v4, hr]; exact r.root_le, ?_, ?_, ?_, ?_⟩, ?_⟩
+      by rw [v3]; exact ts.statusNone, by rw [v3]; exact ts.parentsNone, ?_, by rw [v4, hr]; exact r.root_le, ?_, ?_, ?_, ?_,
+      by rw [v3]; exact ts.highEq⟩, ?_⟩
     · rw [v3, v4]
       rcases ts.parentOk with h1 | ⟨h1, h2, h3, h4⟩
       · exact Or.inl h1
